@@ -84,6 +84,10 @@ type service struct {
 	// Topics manager for all the client subscriptions
 	topicsMgr *topics.Manager
 
+	// topicsName is the name the topic tree of a client connection is
+	// registered under (client side only).
+	topicsName string
+
 	// sess is the session object for this MQTT session. It keeps track session variables
 	// such as ClientId, KeepAlive, Username, etc
 	sess *sessions.Session
@@ -283,7 +287,7 @@ func (svc *service) stop() {
 
 	// Remove the client topics manager
 	if svc.client {
-		topics.Unregister(svc.sess.ID())
+		topics.Unregister(svc.topicsName)
 	}
 
 	svc.conn = nil
